@@ -13,7 +13,7 @@ one() {
   spec=$1; name=${spec%%:*}; props=${spec#*:}; [ "$props" = "$spec" ] && props=${name%%-*}; props=${props//:/ }
   rw=/tmp/sp/rw/$name; vw=/tmp/sp/vw/$name
   rm -rf $vw; git -C /repo worktree remove --force $rw 2>/dev/null; rm -rf $rw
-  git -C /repo worktree add -q --detach $rw HEAD || { echo "$name: worktree failed"; return; }
+  flock /tmp/sp/worktree.lock git -C /repo worktree add -q --detach $rw HEAD || { echo "$name: worktree failed"; return; }
   git -C $rw apply /verif/seeded/$name/patch.diff || { echo "$name: patch does not apply"; git -C /repo worktree remove --force $rw; return; }
   mkdir -p $vw; rsync -a --exclude .git --exclude seeded --exclude replays --exclude work /verif/ $vw/
   if [ -z "$SEEDS" ]; then
